@@ -115,7 +115,7 @@ func copyCoverage(w *World, fn *ssa.Function, T *types.Named, depth int, handled
 											if nfa, ok := r3.(*ssa.FieldAddr); ok && fieldOfAddr(nfa) == nf {
 												for _, r4 := range *nfa.Referrers() {
 													if st4, ok := r4.(*ssa.Store); ok && st4.Addr == nfa {
-														if lf, lb := loadedField(stripConv(st4.Val)); !(lf == nf && lb != nil) {
+														if lf, lb := loadedField(stripConv(st4.Val)); !(lf == nf && lb != nil) && !appendsOntoField(st4.Val, nf) {
 															reassigned = true
 														}
 													}
@@ -130,7 +130,7 @@ func copyCoverage(w *World, fn *ssa.Function, T *types.Named, depth int, handled
 														if nfa, ok := r3.(*ssa.FieldAddr); ok && fieldOfAddr(nfa) == nf {
 															for _, r4 := range *nfa.Referrers() {
 																if st4, ok := r4.(*ssa.Store); ok && st4.Addr == nfa {
-																	if lf, _ := loadedField(stripConv(st4.Val)); lf != nf {
+																	if lf, _ := loadedField(stripConv(st4.Val)); lf != nf && !appendsOntoField(st4.Val, nf) {
 																		reassigned = true
 																	}
 																}
@@ -274,6 +274,32 @@ func sharedElements(fn *ssa.Function) []sharedElem {
 					}
 				}
 				if bi, ok := x.Call.Value.(*ssa.Builtin); ok && bi.Name() == "append" && len(x.Call.Args) == 2 {
+					// append(src.f[:n], …): the result lives in the backing array of the source's own slice
+					base := x.Call.Args[0]
+					for {
+						if sl, isSl := base.(*ssa.Slice); isSl {
+							base = sl.X
+							continue
+						}
+						break
+					}
+					if f, b := loadedField(stripConv(base)); f != nil && b != nil {
+						root := b
+						for i := 0; i < 4; i++ {
+							if fa, isFA := root.(*ssa.FieldAddr); isFA {
+								root = fa.X
+								continue
+							}
+							if u, isU := root.(*ssa.UnOp); isU {
+								root = u.X
+								continue
+							}
+							break
+						}
+						if sourceDerived(fn, root) || sourceDerived(fn, b) {
+							out = append(out, sharedElem{f.Name(), "it is built by appending onto the source's own slice (append(src." + f.Name() + "[:n], …) reuses that backing array when it has room)", x.Pos()})
+						}
+					}
 					// append(fresh, src...) with reference-typed elements
 					if sl, ok := x.Call.Args[0].Type().Underlying().(*types.Slice); ok && isRefType(sl.Elem()) {
 						if _, isSlice := x.Call.Args[1].Type().Underlying().(*types.Slice); isSlice {
@@ -287,6 +313,30 @@ func sharedElements(fn *ssa.Function) []sharedElem {
 		}
 	}
 	return out
+}
+
+// appendsOntoField: v is append(x[:…], …) (possibly nested) where x is a load of
+// field f: the "copy" reuses the backing array of the source's slice.
+func appendsOntoField(v ssa.Value, f *types.Var) bool {
+	for i := 0; i < 6; i++ {
+		switch x := stripConv(v).(type) {
+		case *ssa.Call:
+			if bi, ok := x.Call.Value.(*ssa.Builtin); ok && bi.Name() == "append" {
+				v = x.Call.Args[0]
+				continue
+			}
+			return false
+		case *ssa.Slice:
+			v = x.X
+			continue
+		case *ssa.UnOp:
+			lf, _ := loadedField(x)
+			return lf == f
+		default:
+			return false
+		}
+	}
+	return false
 }
 
 // sourceDerivedCall: the call is a method on the source object (v.PartialCopy()).
@@ -410,6 +460,112 @@ func runC10(c *Ctx) {
 	}
 	// balances are never mutated in place (the Account struct is copied by value)
 	c10NoInPlaceBalance(c, w)
+
+	// ------------------------------------------------------------ K6
+	c.Rule("C10.K6", "SUPERSET", "StateDB.Copy hands the source's tracking sets on: for every set it ranges over (stateObjectsDirty, stateObjectsPending, validatorObjectsDirty) the copy's set receives the key on every iteration — unconditionally, or, where the mark sits under 'not yet in the copy', every other insertion into the copy's object container carries that mark itself; Commit writes code, delegation lists and storage only for objects marked dirty")
+	c.Min(3)
+	{
+		cp := w.Fn("core/state", "StateDB", "Copy")
+		c.sawFunc(fname(cp))
+		var cpFns []*ssa.Function
+		cpFns = append(cpFns, withSmallHelpers(cp)...)
+		for _, ci := range callInstrs(cp) {
+			// a tail of Copy split off into a method that takes the copy
+			if g := staticCallee(ci); g != nil && g.Pkg != nil && g.Pkg.Pkg.Path() == full("core/state") && g.Signature.Recv() != nil && ownerName(g.Params[0].Type()) == "StateDB" && g != cp {
+				dup := false
+				for _, x := range cpFns {
+					if x == g {
+						dup = true
+					}
+				}
+				if !dup && len(g.Blocks) > 0 && len(callArgs(ci)) >= 1 && ownerName(callArgs(ci)[0].Type()) == "StateDB" {
+					cpFns = append(cpFns, g)
+				}
+			}
+		}
+		type setSpec struct{ set, container string }
+		for _, sp := range []setSpec{{"stateObjectsDirty", "stateObjects"}, {"stateObjectsPending", "stateObjects"}, {"validatorObjectsDirty", "validatorObjects"}} {
+			setF := w.Field("core/state", "StateDB", sp.set)
+			contF := w.Field("core/state", "StateDB", sp.container)
+			c.sites++
+			key := fname(cp) + "#hands-on-" + sp.set
+			found := false
+			verdict, why := true, ""
+			for _, fn := range cpFns {
+				isSrc := func(base ssa.Value) bool { return sourceDerived(fn, base) || (fn != cp && base == ssa.Value(fn.Params[0])) }
+				// marks of the copy's set, insertions into the copy's container
+				var marks, inserts []ssa.Instruction
+				for _, in := range allInstrs(fn) {
+					switch x := in.(type) {
+					case *ssa.MapUpdate:
+						if f, base := loadedField(stripConv(x.Map)); base != nil && !isSrc(base) {
+							if f == setF {
+								marks = append(marks, x)
+							}
+							if f == contF {
+								inserts = append(inserts, x)
+							}
+						}
+					case ssa.CallInstruction:
+						if o := calleeObj(x); o != nil && o.Name() == "Store" && recvName(o) == "Map" {
+							if fa, ok := stripConv(callRecv(x)).(*ssa.FieldAddr); ok && fieldOfAddr(fa) == contF && !isSrc(fa.X) {
+								inserts = append(inserts, x)
+							}
+						}
+					}
+				}
+				for _, site := range mapRanges(fn) {
+					f, base := loadedField(stripConv(site.Range.X))
+					if f != setF || base == nil || !isSrc(base) {
+						continue
+					}
+					found = true
+					// a mark that runs on every iteration: its block dominates every back edge of the loop
+					uncond := false
+					for _, m := range marks {
+						if !site.Loop[m.Block()] {
+							continue
+						}
+						all := true
+						for _, p := range site.Header.Preds {
+							if site.Loop[p] && !m.Block().Dominates(p) {
+								all = false
+							}
+						}
+						if all {
+							uncond = true
+						}
+					}
+					if uncond {
+						continue
+					}
+					inLoopMark := false
+					for _, m := range marks {
+						if site.Loop[m.Block()] {
+							inLoopMark = true
+						}
+					}
+					if !inLoopMark {
+						verdict, why = false, "the loop over the source's "+sp.set+" never marks the copy"
+						continue
+					}
+					for _, ins := range inserts {
+						if site.Loop[ins.Block()] {
+							continue
+						}
+						if !alwaysWith(ins, marks) {
+							verdict, why = false, "the copy's "+sp.set+" is marked only for objects the loop copies itself, while "+w.Pos(ins.Pos())+" puts objects into the copy's "+sp.container+" without the mark: an object that was already copied there (after Finalise: by the pending loop) loses it"
+						}
+					}
+				}
+			}
+			if !found {
+				c.Undecided(key, cp.Pos(), "Copy does not range over the source's "+sp.set)
+				continue
+			}
+			c.Check(key, cp.Pos(), verdict, ifelse(verdict, "every key of the source's set ends up in the copy's set", why+"; Commit on the copy then writes neither its code nor its delegation list nor its storage trie, and the reopened state is not the live one"))
+		}
+	}
 
 	// ------------------------------------------------------------ K5
 	c.Rule("C10.K5", "ALWAYS-WITH", "stateObject.updateTrie records in originStorage every value it flushes to the storage trie — update or delete — before the trie write, with the same key and value: the live object's idea of the committed value must equal what a reopened state reads")
